@@ -31,6 +31,7 @@ import (
 
 	"github.com/imoore76/ldlm/lock"
 	"github.com/imoore76/ldlm/server"
+	sesspkg "github.com/imoore76/ldlm/server/session"
 	"github.com/imoore76/ldlm/server/session/store"
 	"github.com/imoore76/ldlm/timermap"
 
@@ -150,6 +151,95 @@ func parseSpawn(toks []string) []Spawn {
 	return out
 }
 
+// ParseItem reads one schedule item (the tokens after "I <k>").
+func ParseItem(k int, f []string) (Item, bool) {
+	if len(f) == 0 {
+		return Item{}, false
+	}
+	it := Item{Kind: f[0], Raw: strings.Join(f, " ")}
+	it.K = k
+	toks := f[1:]
+	for i, t := range toks {
+		if t == "spawn" {
+			it.Spawn = parseSpawn(toks[i+1:])
+			toks = toks[:i]
+			break
+		}
+	}
+	ok := true
+	switch it.Kind {
+	case "connect", "connend":
+		if len(toks) < 1 {
+			ok = false
+			break
+		}
+		it.Sid = unhx(toks[0])
+	case "call":
+		if len(toks) < 2 {
+			ok = false
+			break
+		}
+		it.Tid, _ = strconv.Atoi(toks[0])
+		it.Op = toks[1]
+		a := toks[2:]
+		switch it.Op {
+		case "try", "lock":
+			if len(a) < 5 {
+				ok = false
+				break
+			}
+			it.Sid, it.Name, it.Key = unhx(a[0]), unhx(a[1]), unhx(a[2])
+			z, _ := strconv.Atoi(a[3])
+			it.Size = int32(z)
+			if a[4] != "~" {
+				v, _ := strconv.Atoi(a[4])
+				lt := int32(v)
+				it.Lt = &lt
+			}
+		case "unl":
+			if len(a) < 2 {
+				ok = false
+				break
+			}
+			it.Name, it.Key = unhx(a[0]), unhx(a[1])
+		case "renew":
+			if len(a) < 3 {
+				ok = false
+				break
+			}
+			it.Name, it.Key = unhx(a[0]), unhx(a[1])
+			v, _ := strconv.Atoi(a[2])
+			lt := int32(v)
+			it.Lt = &lt
+		default:
+			ok = false
+		}
+	case "run", "wake":
+		if len(toks) < 1 {
+			ok = false
+			break
+		}
+		it.Tid, _ = strconv.Atoi(toks[0])
+	case "cancel":
+		if len(toks) < 2 {
+			ok = false
+			break
+		}
+		it.Tid, _ = strconv.Atoi(toks[0])
+		it.Err = toks[1]
+	case "tick":
+		if len(toks) < 1 {
+			ok = false
+			break
+		}
+		it.Dt, _ = strconv.ParseInt(toks[0], 10, 64)
+	case "signal":
+	default:
+		ok = false
+	}
+	return it, ok
+}
+
 // ParseSchedules reads `svdriver gen` / `svdriver expand` output (expected observations and ghost lines are skipped).
 func ParseSchedules(sc *bufio.Scanner) []*Schedule {
 	var out []*Schedule
@@ -173,87 +263,8 @@ func ParseSchedules(sc *bufio.Scanner) []*Schedule {
 			if cur == nil || len(f) < 3 {
 				continue
 			}
-			it := Item{Kind: f[2], Raw: strings.Join(f[2:], " ")}
-			it.K, _ = strconv.Atoi(f[1])
-			toks := f[3:]
-			for i, t := range toks {
-				if t == "spawn" {
-					it.Spawn = parseSpawn(toks[i+1:])
-					toks = toks[:i]
-					break
-				}
-			}
-			ok := true
-			switch it.Kind {
-			case "connect", "connend":
-				if len(toks) < 1 {
-					ok = false
-					break
-				}
-				it.Sid = unhx(toks[0])
-			case "call":
-				if len(toks) < 2 {
-					ok = false
-					break
-				}
-				it.Tid, _ = strconv.Atoi(toks[0])
-				it.Op = toks[1]
-				a := toks[2:]
-				switch it.Op {
-				case "try", "lock":
-					if len(a) < 5 {
-						ok = false
-						break
-					}
-					it.Sid, it.Name, it.Key = unhx(a[0]), unhx(a[1]), unhx(a[2])
-					z, _ := strconv.Atoi(a[3])
-					it.Size = int32(z)
-					if a[4] != "~" {
-						v, _ := strconv.Atoi(a[4])
-						lt := int32(v)
-						it.Lt = &lt
-					}
-				case "unl":
-					if len(a) < 2 {
-						ok = false
-						break
-					}
-					it.Name, it.Key = unhx(a[0]), unhx(a[1])
-				case "renew":
-					if len(a) < 3 {
-						ok = false
-						break
-					}
-					it.Name, it.Key = unhx(a[0]), unhx(a[1])
-					v, _ := strconv.Atoi(a[2])
-					lt := int32(v)
-					it.Lt = &lt
-				default:
-					ok = false
-				}
-			case "run", "wake":
-				if len(toks) < 1 {
-					ok = false
-					break
-				}
-				it.Tid, _ = strconv.Atoi(toks[0])
-			case "cancel":
-				if len(toks) < 2 {
-					ok = false
-					break
-				}
-				it.Tid, _ = strconv.Atoi(toks[0])
-				it.Err = toks[1]
-			case "tick":
-				if len(toks) < 1 {
-					ok = false
-					break
-				}
-				it.Dt, _ = strconv.ParseInt(toks[0], 10, 64)
-			case "signal":
-			default:
-				ok = false
-			}
+			k, _ := strconv.Atoi(f[1])
+			it, ok := ParseItem(k, f[2:])
 			if ok {
 				cur.Items = append(cur.Items, it)
 			}
@@ -292,7 +303,7 @@ type session struct {
 
 type snap struct {
 	sha, label, status string
-	dec               map[string][]centry
+	dec                map[string][]centry
 }
 
 // Options of a run (environment of the test binary).
@@ -302,6 +313,7 @@ type Options struct {
 	NetSync     bool     // the network stop runs every DestroySession to completion before it returns (as grpc's Stop does)
 	ImgDir      string
 	StateDir    string
+	Window      bool // window runs (window.go): the INNER yield points (A: sites) park; the harness chooses the interleaving
 }
 
 type runner struct {
@@ -340,6 +352,13 @@ type runner struct {
 	curK       int
 	deadlines  []int64
 	images     map[string]bool
+
+	// window runs: which mutexes the goroutines hold (from the A: / R: notes of the instrumented code)
+	inner   bool           // inner yield points park (false during the sequential prefix of a window run)
+	holdW   map[string]int // mutex name -> writers (0/1)
+	holdR   map[string]int // mutex name -> readers
+	nextSys int
+	cache   map[string]string // last readable rendering of a view whose mutex a parked goroutine holds
 }
 
 func (r *runner) beat(what string) { r.wd.Beat(fmt.Sprintf("%s %d %s", r.sc.ID, r.idx, what)) }
@@ -357,6 +376,23 @@ func splitLabel(full string) (string, []string) {
 
 // step is what the instrumented code calls at every yield point.
 func (r *runner) step(label string, args ...string) {
+	if strings.HasPrefix(label, "R:") {
+		if r.opt.Window {
+			r.noteRelease(label[2:])
+		}
+		return
+	}
+	if strings.HasPrefix(label, "A:") {
+		// an inner yield point: inside what the model treats as one step. Transparent in the model-chosen schedules.
+		if !r.opt.Window {
+			return
+		}
+		if r.inner {
+			r.s.Step(label)
+		}
+		r.noteAcquire(label)
+		return
+	}
 	if strings.HasPrefix(label, "X") {
 		if r.opt.XSplit < 0 {
 			return
@@ -374,6 +410,80 @@ func (r *runner) step(label string, args ...string) {
 		full += "\x00" + strings.Join(args, "\x00")
 	}
 	r.s.Step(full)
+}
+
+// siteMutex: "A:TimerMap.Remove#1:*.timersMtx.Lock()" -> ("timersMtx", 'W'); a site that is no mutex acquisition -> ("", 0).
+func siteMutex(label string) (string, byte) {
+	i := strings.LastIndex(label, ":")
+	t := label[i+1:]
+	mode := byte(0)
+	switch {
+	case strings.HasSuffix(t, ".RLock()"):
+		t, mode = strings.TrimSuffix(t, ".RLock()"), 'R'
+	case strings.HasSuffix(t, ".Lock()"):
+		t, mode = strings.TrimSuffix(t, ".Lock()"), 'W'
+	case strings.HasSuffix(t, ".RUnlock()"):
+		t, mode = strings.TrimSuffix(t, ".RUnlock()"), 'R'
+	case strings.HasSuffix(t, ".Unlock()"):
+		t, mode = strings.TrimSuffix(t, ".Unlock()"), 'W'
+	default:
+		return "", 0
+	}
+	if j := strings.LastIndex(t, "."); j >= 0 {
+		t = t[j+1:]
+	}
+	return t, mode
+}
+
+func (r *runner) noteAcquire(label string) {
+	m, mode := siteMutex(label)
+	if m == "" {
+		return
+	}
+	r.mu.Lock()
+	if mode == 'W' {
+		r.holdW[m]++
+	} else {
+		r.holdR[m]++
+	}
+	r.mu.Unlock()
+}
+
+func (r *runner) noteRelease(text string) {
+	m, mode := siteMutex(":" + text)
+	if m == "" {
+		return
+	}
+	r.mu.Lock()
+	if mode == 'W' && r.holdW[m] > 0 {
+		r.holdW[m]--
+	} else if mode == 'R' && r.holdR[m] > 0 {
+		r.holdR[m]--
+	}
+	r.mu.Unlock()
+}
+
+// held: some goroutine holds mutex m (exclusively, or at all).
+func (r *runner) held(m string, exclusiveOnly bool) bool {
+	r.mu.Lock()
+	defer r.mu.Unlock()
+	return r.holdW[m] > 0 || (!exclusiveOnly && r.holdR[m] > 0)
+}
+
+// canRun: releasing the parked goroutine does not make it block on a mutex that a parked goroutine holds.
+func (r *runner) canRun(in vhook.Info) bool {
+	if in.State != vhook.Parked {
+		return false
+	}
+	lab, _ := splitLabel(in.Label)
+	if !strings.HasPrefix(lab, "A:") {
+		return true
+	}
+	m, mode := siteMutex(lab)
+	if m == "" {
+		return true
+	}
+	return !r.held(m, mode == 'R')
 }
 
 // onUnknown registers the goroutines the runtime starts for lease timers, at their first yield point.
@@ -809,48 +919,64 @@ func (r *runner) observe(tag string, k int) {
 			fmt.Fprintln(&sb)
 		}
 	}
-	var tm []string
-	for _, k := range r.ls.VerifTimerKeys() {
-		if nk, ok := r.tkey[k]; ok {
-			tm = append(tm, hx(nk[0])+" "+hx(nk[1]))
-		} else {
-			tm = append(tm, hx("?")+" "+hx(k))
+	// a view whose mutex a parked goroutine holds (window runs) cannot be read now: the last readable rendering is repeated
+	if r.opt.Window && r.held("timersMtx", true) {
+		sb.WriteString(r.cache["tmr"])
+	} else {
+		var tm []string
+		for _, k := range r.ls.VerifTimerKeys() {
+			if nk, ok := r.tkey[k]; ok {
+				tm = append(tm, hx(nk[0])+" "+hx(nk[1]))
+			} else {
+				tm = append(tm, hx("?")+" "+hx(k))
+			}
 		}
-	}
-	sort.Strings(tm)
-	for _, l := range tm {
-		fmt.Fprintf(&sb, "A %s\n", l)
-	}
-	ses := r.ls.VerifSessions()
-	var sids []string
-	for sid := range ses {
-		sids = append(sids, sid)
-	}
-	sort.Slice(sids, func(i, j int) bool { return hx(r.symOfSid(sids[i])) < hx(r.symOfSid(sids[j])) })
-	for _, sid := range sids {
-		fmt.Fprintf(&sb, "P %s %d", hx(r.symOfSid(sid)), len(ses[sid]))
-		for _, l := range ses[sid] {
-			fmt.Fprintf(&sb, " %s %s %d", hx(l.Name()), hx(r.symOfKey(l.Key())), l.Size())
+		sort.Strings(tm)
+		var tb strings.Builder
+		for _, l := range tm {
+			fmt.Fprintf(&tb, "A %s\n", l)
 		}
-		fmt.Fprintln(&sb)
+		r.cache["tmr"] = tb.String()
+		sb.WriteString(tb.String())
 	}
-	var lst []centry
-	for _, l := range r.ls.Locks() {
-		lst = append(lst, centry{l.Name(), r.symOfKey(l.Key()), l.Size()})
+	if r.opt.Window && r.held("sessionLocksMtx", false) {
+		sb.WriteString(r.cache["ses"])
+	} else {
+		var svb strings.Builder
+		sv := &svb
+		ses := r.ls.VerifSessions()
+		var sids []string
+		for sid := range ses {
+			sids = append(sids, sid)
+		}
+		sort.Slice(sids, func(i, j int) bool { return hx(r.symOfSid(sids[i])) < hx(r.symOfSid(sids[j])) })
+		for _, sid := range sids {
+			fmt.Fprintf(sv, "P %s %d", hx(r.symOfSid(sid)), len(ses[sid]))
+			for _, l := range ses[sid] {
+				fmt.Fprintf(sv, " %s %s %d", hx(l.Name()), hx(r.symOfKey(l.Key())), l.Size())
+			}
+			fmt.Fprintln(sv)
+		}
+		var lst []centry
+		for _, l := range r.ls.Locks() {
+			lst = append(lst, centry{l.Name(), r.symOfKey(l.Key()), l.Size()})
+		}
+		sort.Slice(lst, func(i, j int) bool {
+			a, b := lst[i], lst[j]
+			if hx(a.name) != hx(b.name) {
+				return hx(a.name) < hx(b.name)
+			}
+			if hx(a.key) != hx(b.key) {
+				return hx(a.key) < hx(b.key)
+			}
+			return a.size < b.size
+		})
+		fmt.Fprintf(sv, "G %d", len(lst))
+		r.entries(sv, lst)
+		fmt.Fprintln(sv)
+		r.cache["ses"] = svb.String()
+		sb.WriteString(svb.String())
 	}
-	sort.Slice(lst, func(i, j int) bool {
-		a, b := lst[i], lst[j]
-		if hx(a.name) != hx(b.name) {
-			return hx(a.name) < hx(b.name)
-		}
-		if hx(a.key) != hx(b.key) {
-			return hx(a.key) < hx(b.key)
-		}
-		return a.size < b.size
-	})
-	fmt.Fprintf(&sb, "G %d", len(lst))
-	r.entries(&sb, lst)
-	fmt.Fprintln(&sb)
 	// the state file: raw bytes (crash image) and what the real store decodes from them
 	sha, raw := r.image()
 	st, dec := r.decode(raw)
@@ -871,20 +997,31 @@ func (r *runner) observe(tag string, k int) {
 
 // ---------------------------------------------------------------------------------------------- one schedule
 
-// RunSchedule executes one schedule inside the current synctest bubble.
-func RunSchedule(sc *Schedule, w *bufio.Writer, wd *vhook.Watchdog, opt Options, reached map[string]int, images map[string]bool, seq int) {
+func newRunner(sc *Schedule, w *bufio.Writer, wd *vhook.Watchdog, opt Options, images map[string]bool) *runner {
 	r := &runner{w: w, wd: wd, s: vhook.New(), opt: opt, sc: sc, calls: map[int]*call{}, sess: map[string]*session{},
 		sidSym: map[string]string{}, keySym: map[string]string{}, symKey: map[string]string{}, tkey: map[string][2]string{},
-		sys: map[int]string{}, expectExp: map[[2]string]int{}, nextUnexp: 9000, images: images}
+		sys: map[int]string{}, expectExp: map[[2]string]int{}, nextUnexp: 9000, images: images,
+		holdW: map[string]int{}, holdR: map[string]int{}, cache: map[string]string{}}
 	r.s.OnUnknown = r.onUnknown
 	server.VerifStep = r.step
 	timermap.VerifStep = r.step
+	sesspkg.VerifStep = r.step
+	store.VerifStep = r.step
 	store.VerifSnap = r.snapHook
-	defer func() {
-		server.VerifStep = nil
-		timermap.VerifStep = nil
-		store.VerifSnap = nil
-	}()
+	return r
+}
+
+func (r *runner) unhook() {
+	server.VerifStep = nil
+	timermap.VerifStep = nil
+	sesspkg.VerifStep = nil
+	store.VerifStep = nil
+	store.VerifSnap = nil
+}
+
+// boot starts the real server of this run (state file in the work directory, GC and IPC off).
+func (r *runner) boot(seq int) bool {
+	w, sc, opt := r.w, r.sc, r.opt
 	fmt.Fprintf(w, "S %s\nC %d\n", sc.ID, b2i(sc.NoClear))
 	r.statePath = filepath.Join(opt.StateDir, fmt.Sprintf("state-%d", seq))
 	os.Remove(r.statePath)
@@ -900,11 +1037,34 @@ func RunSchedule(sc *Schedule, w *bufio.Writer, wd *vhook.Watchdog, opt Options,
 		if closer != nil {
 			closer()
 		}
-		return
+		return false
 	}
 	r.ls, r.closer = ls, closer
 	r.lm = ls.VerifLockManager()
 	r.wait("new server")
+	return true
+}
+
+// finish: the end of a run (teardown, reached labels, end marker, scratch files).
+func (r *runner) finish(reached map[string]int) {
+	r.teardown()
+	for k, v := range r.s.Reached() {
+		lab, _ := splitLabel(k)
+		reached[lab] += v
+	}
+	fmt.Fprintln(r.w, "Z")
+	r.w.Flush()
+	os.Remove(r.statePath)
+	os.Remove(r.statePath + ".tmp")
+}
+
+// RunSchedule executes one schedule inside the current synctest bubble.
+func RunSchedule(sc *Schedule, w *bufio.Writer, wd *vhook.Watchdog, opt Options, reached map[string]int, images map[string]bool, seq int) {
+	r := newRunner(sc, w, wd, opt, images)
+	defer r.unhook()
+	if !r.boot(seq) {
+		return
+	}
 
 	last := -1
 	for i, it := range sc.Items {
@@ -929,15 +1089,7 @@ func RunSchedule(sc *Schedule, w *bufio.Writer, wd *vhook.Watchdog, opt Options,
 	if !r.crashed {
 		r.epilogue()
 	}
-	r.teardown()
-	for k, v := range r.s.Reached() {
-		lab, _ := splitLabel(k)
-		reached[lab] += v
-	}
-	fmt.Fprintln(w, "Z")
-	w.Flush()
-	os.Remove(r.statePath)
-	os.Remove(r.statePath + ".tmp")
+	r.finish(reached)
 }
 
 // drain runs whoever is parked at a yield point, lowest thread id first, one step at a time, until nobody is.
@@ -950,7 +1102,7 @@ func (r *runner) drain(tag string) {
 	for n := 0; n < 300 && !r.crashed; n++ {
 		id := -1
 		for _, in := range r.s.Snapshot() {
-			if in.State == vhook.Parked {
+			if in.State == vhook.Parked && (!r.opt.Window || r.canRun(in)) {
 				id = in.ID
 				break
 			}
